@@ -59,6 +59,7 @@ func resetGlobals(seqStrings bool) {
 	ufPosCache = map[[2]int][]string{}
 	boundCache = map[[2]int][]*Term{}
 	selSortCache = map[[2]int]map[string]bool{}
+	selArrCache = map[[2]int][]*Term{}
 	strFunsDeclared = false
 	selectorOf = map[string]selInfo{"root": {"mkloc", 0}, "path": {"mkloc", 1}, "sarr": {"mkslice", 0}, "soff": {"mkslice", 1},
 		"slen": {"mkslice", 2}, "scap": {"mkslice", 3}, "ppar": {"pfld", 0}, "pfid": {"pfld", 1}, "ppar2": {"pidx", 0}, "pix": {"pidx", 1}}
@@ -93,6 +94,7 @@ type savedCtx struct {
 	ufPosCache                    map[[2]int][]string
 	boundCache                    map[[2]int][]*Term
 	selSortCache                  map[[2]int]map[string]bool
+	selArrCache                   map[[2]int][]*Term
 	strFunsDeclared               bool
 	selectorOf                    map[string]selInfo
 	StrSort                       string
@@ -101,7 +103,7 @@ type savedCtx struct {
 func saveGlobals() *savedCtx {
 	return &savedCtx{TC, True, False, PNil, NilLoc, NilSlc, NilFace, axiomsBySym, structByKey, nextFid, fidName, typeIDs, typeByID,
 		declaredSorts, f64Consts, opaqueZero, globalIDs, funcIDs, recSpecDone, recDefs, recPass1, recSpecMem, bitAxioms, symCache,
-		ufLits, patCache, ufPosCache, boundCache, selSortCache, strFunsDeclared, selectorOf, StrSort}
+		ufLits, patCache, ufPosCache, boundCache, selSortCache, selArrCache, strFunsDeclared, selectorOf, StrSort}
 }
 
 func restoreGlobals(c *savedCtx) {
@@ -111,6 +113,7 @@ func restoreGlobals(c *savedCtx) {
 	recSpecDone, recDefs, recPass1, recSpecMem, bitAxioms, symCache = c.recSpecDone, c.recDefs, c.recPass1, c.recSpecMem, c.bitAxioms, c.symCache
 	ufLits, patCache, ufPosCache, boundCache, selSortCache = c.ufLits, c.patCache, c.ufPosCache, c.boundCache, c.selSortCache
 	strFunsDeclared, selectorOf, StrSort = c.strFunsDeclared, c.selectorOf, c.StrSort
+	selArrCache = c.selArrCache
 }
 
 type axiom struct {
